@@ -181,6 +181,37 @@ class StaleTime:
                 return k.value
         return c.args[0] if c.args else None
 
+    def _helper_returns_fresh_event(self, c: ast.AST) -> bool:
+        """`self.m(...)` whose every return value is an Event stamped from a fresh time source (e.g. `_schedule_next()`)."""
+        if not (isinstance(c, ast.Call) and isinstance(c.func, ast.Attribute) and path_of(c.func.value) == "self"):
+            return False
+        callees = self.prog.resolve_call(self.fn, c)
+        if not callees:
+            return False
+        for cal in callees:
+            if cal.is_generator:
+                return False
+            rets = [s_ for s_ in walk_stmts(cal.node.body) if isinstance(s_, ast.Return) and s_.value is not None]
+            if not rets:
+                return False
+            evp = {p_ for p_ in cal.params() if p_ in ("event", "evt", "ev", "request_event")}
+            for r in rets:
+                v = r.value
+                if isinstance(v, ast.Name):
+                    defs = [s_.value for s_ in walk_stmts(cal.node.body) if isinstance(s_, ast.Assign) and path_of(s_.targets[0]) == v.id]
+                    v = defs[-1] if len(defs) == 1 else v
+                t = self._is_emission_ctor(v)
+                if t is None or not any(is_time_source(n_, evp) for n_ in walk_scope(t)):
+                    return False
+        return True
+
+    def _fresh_stamped(self, t: ast.AST | None, st) -> bool:
+        """``t`` derives from a fresh (uncrossed) time value, possibly plus a delay."""
+        if t is None:
+            return False
+        d, stale, _ = self._taint(t, st)
+        return d and not stale
+
     def _bare_fresh(self, t: ast.AST | None, st) -> bool:
         """Is ``t`` exactly a fresh (uncrossed) time value — a time source or a time-derived local, no arithmetic?"""
         if t is None:
@@ -303,8 +334,8 @@ class StaleTime:
                     tgt = a_.targets[0] if isinstance(a_, ast.Assign) else a_.target
                     if isinstance(tgt, ast.Name):
                         ctors = [c for c in walk_scope(a_.value) if self._is_emission_ctor(c) is not None]
-                        fresh = [c for c in ctors if self._bare_fresh(self._is_emission_ctor(c), out)]
-                        if fresh:
+                        fresh = [c for c in ctors if self._fresh_stamped(self._is_emission_ctor(c), out)]
+                        if fresh or self._helper_returns_fresh_event(a_.value):
                             holders.append((tgt.id, True))
                         elif isinstance(a_.value, ast.Name) and f"@ev:{a_.value.id}" in out:
                             out = dict(out)
@@ -315,7 +346,7 @@ class StaleTime:
                 elif isinstance(a_, ast.Expr) and isinstance(a_.value, ast.Call) and isinstance(a_.value.func, ast.Attribute) \
                         and a_.value.func.attr in ("append", "extend", "insert") and isinstance(a_.value.func.value, ast.Name):
                     ctors = [c for arg in a_.value.args for c in walk_scope(arg) if self._is_emission_ctor(c) is not None]
-                    if any(self._bare_fresh(self._is_emission_ctor(c), out) for c in ctors):
+                    if any(self._fresh_stamped(self._is_emission_ctor(c), out) for c in ctors) or any(self._helper_returns_fresh_event(arg) for arg in a_.value.args):
                         holders.append((a_.value.func.value.id, False))
                     elif a_.value.func.attr == "clear":
                         pass
@@ -462,3 +493,89 @@ def live_iterations(prog: Program, fn: FunctionInfo, effects) -> list[LiveIter]:
         if muts:
             out.append(LiveIter(fn, st, p, sorted(set(muts))))
     return out
+
+
+# ------------------------------------------------------------------------------------------
+# time-base alternatives of an emission timestamp (flow-insensitive, intra-procedural)
+# ------------------------------------------------------------------------------------------
+
+
+def time_bases(fn: FunctionInfo, e: ast.AST, event_params: set[str], depth: int = 0, seen: frozenset = frozenset()) -> set[str]:
+    """The alternative *bases* a timestamp expression can take: 'fresh', 'param:<p>', 'stored:<path>', 'const', 'other:<txt>'.
+
+    ``a + d`` has the bases of its time-typed operand; ``a or b`` / ``x if c else y`` have both; ``max(...)`` with a fresh
+    alternative is clamped to fresh; locals are expanded through all their definitions in the function.
+    """
+    if depth > 8:
+        return {"other:deep"}
+    if is_time_source(e, event_params):
+        return {"fresh"}
+    if isinstance(e, ast.Constant):
+        return {"const"}
+    if isinstance(e, ast.Name):
+        if e.id in fn.params():
+            return {f"param:{e.id}"}
+        if e.id in seen:
+            return set()
+        defs = [s_.value for s_ in walk_stmts(fn.node.body) if isinstance(s_, (ast.Assign, ast.AnnAssign)) and s_.value is not None
+                and any(path_of(t_) == e.id for t_ in (s_.targets if isinstance(s_, ast.Assign) else [s_.target]))]
+        for s_ in walk_stmts(fn.node.body):
+            if isinstance(s_, ast.Assign) and isinstance(s_.targets[0], (ast.Tuple, ast.List)) and any(path_of(x) == e.id for x in s_.targets[0].elts):
+                defs.append(s_.value)
+        if not defs:
+            return {f"other:{e.id}"}
+        out: set[str] = set()
+        for d in defs:
+            out |= time_bases(fn, d, event_params, depth + 1, seen | {e.id})
+        return out
+    if isinstance(e, ast.Attribute):
+        p = path_of(e)
+        if p is not None:
+            if e.attr in ("nanoseconds",):
+                return time_bases(fn, e.value, event_params, depth + 1, seen)
+            return {f"stored:{p}"}
+        return time_bases(fn, e.value, event_params, depth + 1, seen)
+    if isinstance(e, ast.BinOp) and isinstance(e.op, (ast.Add, ast.Sub)):
+        lb = time_bases(fn, e.left, event_params, depth + 1, seen)
+        rb = time_bases(fn, e.right, event_params, depth + 1, seen)
+        timeish = {b for b in lb | rb if b == "fresh" or b.startswith(("stored:", "param:"))}
+        # the delay operand: configuration attributes / constants are not time bases
+        pick = set()
+        for side, bs in ((e.left, lb), (e.right, rb)):
+            if "fresh" in bs:
+                pick |= {"fresh"}
+        if pick:
+            # fresh ± something: the other operand is a delay
+            return pick | {b for b in (lb | rb) if b.startswith("stored:") and _looks_like_timestamp(b)}
+        return timeish or (lb | rb)
+    if isinstance(e, ast.BoolOp):
+        out = set()
+        for v in e.values:
+            out |= time_bases(fn, v, event_params, depth + 1, seen)
+        return out
+    if isinstance(e, ast.IfExp):
+        return time_bases(fn, e.body, event_params, depth + 1, seen) | time_bases(fn, e.orelse, event_params, depth + 1, seen)
+    if isinstance(e, ast.Call):
+        fname = path_of(e.func) or ""
+        last = fname.split(".")[-1]
+        if last == "max" and e.args:
+            alts = [time_bases(fn, a, event_params, depth + 1, seen) for a in e.args]
+            if any(a == {"fresh"} for a in alts):
+                return {"fresh"}
+            return set().union(*alts)
+        if last in ("from_seconds", "Instant", "float", "int") and e.args:
+            return time_bases(fn, e.args[0], event_params, depth + 1, seen)
+        if last in ("to_seconds",) and isinstance(e.func, ast.Attribute):
+            return time_bases(fn, e.func.value, event_params, depth + 1, seen)
+        if last == "min" and e.args:
+            return set().union(*[time_bases(fn, a, event_params, depth + 1, seen) for a in e.args])
+        return {f"other:{fname}()"}
+    return {f"other:{type(e).__name__}"}
+
+
+_TS_HINTS = ("_at", "_time", "time", "timestamp", "deadline", "expires", "last_")
+
+
+def _looks_like_timestamp(base: str) -> bool:
+    last = base.split(".")[-1].lower()
+    return any(h in last for h in _TS_HINTS)
